@@ -525,7 +525,21 @@ class DirectSolver(LinearSolver):
 
         # matrix-vector-product generated jacobians are scaled.
         else:
-            x_vec[:] = sol_array = scipy.linalg.lu_solve(self._lup, b_vec, trans=trans_lu)
+            if mode == 'rev' and (system._has_output_scaling or system._has_resid_scaling):
+                # The matrix was generated by fwd mode mat-vec products, so it is Sr^-1 J So,
+                # where So and Sr are the output and residual scaling factors. The linear
+                # vectors are scaled the same way in both modes (doutputs by So^-1 and
+                # dresiduals by Sr^-1), so the transpose of the matrix relates
+                # doutputs * So^2 to dresiduals * Sr^2.
+                rhs = b_vec
+                if system._has_output_scaling:
+                    rhs = rhs * d_outputs._scaling[0] ** 2
+                sol_array = scipy.linalg.lu_solve(self._lup, rhs, trans=trans_lu)
+                if system._has_resid_scaling:
+                    sol_array /= d_residuals._scaling[0] ** 2
+                x_vec[:] = sol_array
+            else:
+                x_vec[:] = sol_array = scipy.linalg.lu_solve(self._lup, b_vec, trans=trans_lu)
 
         if not system.under_complex_step and self._lin_rhs_checker is not None and mode == 'rev':
             self._lin_rhs_checker.add_solution(b_vec, sol_array, system, copy=True)
